@@ -187,6 +187,59 @@ func runC14(c *Ctx) {
 		}
 	}
 
+	// ---- R14.8: bytes written to the socket are not kept in unguarded per-connection scratch memory
+	c.ruleOpt("R14.8", "what is written to the socket is not assembled in a field of the connection object outside the write lock (a scratch buffer shared by the loop, the forwarder and the cancel goroutines)")
+	{
+		n := 0
+		for _, ci := range gorillaConnCalls(p) {
+			if methodOf(ci) != "WriteMessage" || len(ci.Common().Args) < 3 {
+				continue
+			}
+			data := ci.Common().Args[2]
+			var shared *types.Var
+			c.dependsOn(data, func(v ssa.Value) bool {
+				if fa, ok := v.(*ssa.FieldAddr); ok {
+					if pt, ok := fa.X.Type().Underlying().(*types.Pointer); ok && r.TConn != nil && pt.Elem() == types.Type(r.TConn) {
+						f := fieldOfAddr(fa)
+						if _, isChan := f.Type().Underlying().(*types.Chan); !isChan && f != r.FSock {
+							shared = f
+						}
+					}
+				}
+				return false
+			}, 0, map[ssa.Value]bool{})
+			if shared == nil {
+				continue
+			}
+			n++
+			held := li.mustAt(ci)
+			construct := fmt.Sprintf("%s: message assembled in connection field %s", fname(ci.Parent()), shared.Name())
+			var bare ssa.Instruction
+			for _, u := range p.uses(shared) {
+				if c.isConstruction(u) {
+					continue
+				}
+				ok := false
+				for l := range li.mustAt(u.At) {
+					if held[l] {
+						ok = true
+					}
+				}
+				if !ok && bare == nil {
+					bare = u.At
+				}
+			}
+			if bare != nil {
+				c.bad("R14.8", construct, c.ipos(bare), "the bytes handed to the socket are assembled in a field of the connection object that is touched here without the write lock: the loop, the forwarder and the cancel goroutines all send requests, so two of them encode into the same buffer at once and empty, concatenated or duplicated messages go out in otherwise valid frames")
+			} else {
+				c.ok("R14.8", construct, c.ipos(ci), "every access holds the lock held at the write")
+			}
+		}
+		if n == 0 {
+			c.ok("R14.8", "socket writes", "-", "no message is assembled in a field of the connection object")
+		}
+	}
+
 	// ---- R14.1
 	var common lockSet
 	type site struct {
@@ -403,43 +456,7 @@ func runC14(c *Ctx) {
 	c.ruleOpt("R14.6", "an object handed to another goroutine over a channel is not returned to a sync.Pool by the sender")
 	c.poolSharedRule("R14.6", nil)
 	c.ruleOpt("R14.5", "an object handed back to a sync.Pool (and byte slices obtained from it) is not used afterwards")
-	for _, fn := range p.Funcs {
-		allInstrs(fn, func(in ssa.Instruction) {
-			put, ok := in.(*ssa.Call)
-			if !ok || calleeName(put) != "(*sync.Pool).Put" {
-				return
-			}
-			obj := stripConv(put.Common().Args[1])
-			derived := map[ssa.Value]bool{obj: true}
-			if refs := obj.Referrers(); refs != nil {
-				for _, ref := range *refs {
-					if call, ok := ref.(*ssa.Call); ok && call != put {
-						if _, isSlice := call.Type().Underlying().(*types.Slice); isSlice {
-							derived[call] = true
-						}
-					}
-				}
-			}
-			construct := fmt.Sprintf("%s: object returned to a sync.Pool", fname(fn))
-			use := reachFrom(put, func(x ssa.Instruction) bool {
-				if x == ssa.Instruction(put) {
-					return false
-				}
-				for _, op := range x.Operands(nil) {
-					if op != nil && *op != nil && derived[stripConv(*op)] {
-						if _, isDbg := x.(*ssa.DebugRef); !isDbg {
-							return true
-						}
-					}
-				}
-				return false
-			}, nil)
-			c.check(use == nil, "R14.5", construct, c.ipos(put), "not used after Put", "the pooled object (or a byte slice taken from it) is still used after being returned to the pool: a concurrent sender overwrites the bytes that are about to be written, so frames are duplicated, lost or blended")
-			if use != nil {
-				_ = use
-			}
-		})
-	}
+	c.pooledUseAfterPut("R14.5")
 }
 
 // guardRule: infer the guard (the lock most often held) and require it at every
@@ -644,5 +661,61 @@ func (c *Ctx) lazyWriterRule() {
 				c.ok(rule, construct, c.ipos(pubStore), fmt.Sprintf("waits on %s; %d close site(s), all at/after consumer return", doneField.Name(), nclose))
 			}
 		}
+	}
+}
+
+// pooledUseAfterPut: an object returned to a sync.Pool, a byte slice obtained from it, or a local that
+// holds either, is not used after the Put (also not by a closure created afterwards that captured it).
+func (c *Ctx) pooledUseAfterPut(rule string) {
+	p := c.P
+	for _, fn := range p.Funcs {
+		allInstrs(fn, func(in ssa.Instruction) {
+			put, ok := in.(*ssa.Call)
+			if !ok || calleeName(put) != "(*sync.Pool).Put" {
+				return
+			}
+			obj := stripConv(put.Common().Args[1])
+			derived := map[ssa.Value]bool{obj: true}
+			if refs := obj.Referrers(); refs != nil {
+				for _, ref := range *refs {
+					if call, ok := ref.(*ssa.Call); ok && call != put {
+						if _, isSlice := call.Type().Underlying().(*types.Slice); isSlice {
+							derived[call] = true
+						}
+					}
+				}
+			}
+			// locals (captured variables) holding a derived value
+			for v := range derived {
+				if v.Referrers() == nil {
+					continue
+				}
+				for _, ref := range *v.Referrers() {
+					if st, ok := ref.(*ssa.Store); ok && st.Val == v {
+						if al, ok := st.Addr.(*ssa.Alloc); ok {
+							derived[al] = true
+						}
+					}
+				}
+			}
+			construct := fmt.Sprintf("%s: object returned to a sync.Pool", fname(fn))
+			use := reachFrom(put, func(x ssa.Instruction) bool {
+				if x == ssa.Instruction(put) {
+					return false
+				}
+				if st, ok := x.(*ssa.Store); ok && derived[st.Addr] && !derived[stripConv(st.Val)] {
+					return false // the local is given a new value
+				}
+				for _, op := range x.Operands(nil) {
+					if op != nil && *op != nil && derived[stripConv(*op)] {
+						if _, isDbg := x.(*ssa.DebugRef); !isDbg {
+							return true
+						}
+					}
+				}
+				return false
+			}, nil)
+			c.check(use == nil, rule, construct, c.ipos(put), "not used after Put", "the pooled object (or a byte slice taken from it) is still used after being returned to the pool: a concurrent user of the pool overwrites the bytes that are about to be written, so replies are duplicated, lost or blended")
+		})
 	}
 }
